@@ -23,4 +23,15 @@ def fixWithItems (parentKind : String) : Bool := inFamily 0 parentKind
 def twins : List (String × String) :=
   [("With", "AsyncWith"), ("For", "AsyncFor"), ("FunctionDef", "AsyncFunctionDef")]
 
+/-- `_put_one_AnnAssign_target`: the value written to `AnnAssign.simple` after a put into `target`:
+`1 if ret.a.__class__ is Name and not ret.pars().n else 0`. -/
+def annSimple (targetIsName : Bool) (npars : Nat) : Nat := if targetIsName && npars == 0 then 1 else 0
+
+/-- CPython (Grammar/python.gram, `assignment`): `simple` is 1 for `NAME ':' expression ['=' ...]`, 0 for
+`'(' single_target ')'` and for attribute / subscript targets. -/
+def annSimpleSpec (targetIsName : Bool) (npars : Nat) : Nat :=
+  match targetIsName, npars with
+  | true, 0 => 1
+  | _, _ => 0
+
 end Pfst.SharedDelims
